@@ -5,7 +5,7 @@ from harness import common as C
 from harness import layouts as L
 
 ANCHORS = ["T7pipe"]
-MODELS = ["NdCase", "Pipe", "PipeCase"]
+MODELS = ["NdCase", "Pipe", "PipeCase", "Concat", "ConcatCase"]
 RULE = ("layouts enumerated: container (DataArray/Dataset/list) x 1..3 sample dims x 1..3 feature dims x dimension orders x index kind per "
         "dimension (ascending, unsorted, string, datetime, MultiIndex) x Dataset variables with equal/different dimension sets x extra "
         "non-index coordinates x default/custom sample/feature names, sizes 2-3 per dimension, unique integer-valued entries so every "
@@ -211,6 +211,8 @@ def run(ctx):
                 ctx.notes.append("stacking model disagrees with Preprocessor on layout %s" % (meta[b][1],))
                 ctx.extra.setdefault("disagreements", []).append(meta[b][0])
         ctx.oblige("correspondence:stacking-model (%d layouts, exact)" % len(cases), "correspondence", ok and nbad == 0, "%d disagreements" % nbad)
+    from harness import ren
+    ren.run_concat(ctx, "C02", ctx.n(40, 400))
     ctx.oblige("oracle:structure and labels preserved on every enumerated layout", "oracle", not ctx.violations)
 
 
